@@ -47,7 +47,12 @@ theorem C12_leak_drain_row_run (m : Mode) (t : TD α) (h : t.Inv) (i : Nat) (hi 
       (d.run w).2.leak.1.Inv ∧ (d.run w).2.leak.1.data = t.data.take (i * t.numCols) ∧ (d.run w).2.leak.1.numRows = i ∧
       (d.run w).2.leak.1.grid = t.grid.take i ∧
       ((d.run w).2.leak.1.data ++ (d.run w).1 ++ (d.run w).2.leak.2).Perm t.data := by
-  sorry
+  have he := ow_removeRow_eq m t h i hi
+  have hy := List.perm_append_comm.trans (dr_ends_perm w ((t.data.drop (i * t.numCols)).take t.numCols))
+  have h4 := (C12_leak_drain_row m t h i hi _ he _ _ hy).2.2.2
+  refine ⟨_, he, ?_⟩
+  rw [dr_row_run]
+  exact ⟨ow_leak_row_inv t h i (Nat.le_of_lt hi), rfl, rfl, ow_leak_row_grid t h i (Nat.le_of_lt hi), h4⟩
 
 /-- `mem::forget(remove_col(i))` after any consumption `w` from either end: the array is what `remove_col` left behind — the
     empty array `(0,0)`, which satisfies the shape invariant — and the yielded items plus the leaked elements are exactly the old
@@ -55,18 +60,83 @@ theorem C12_leak_drain_row_run (m : Mode) (t : TD α) (h : t.Inv) (i : Nat) (hi 
 theorem C12_leak_drain_col_run (m : Mode) (t : TD α) (h : t.Inv) (i : Nat) (hi : i < t.numCols) (w : List Bool) :
     ∃ d ys d', t.removeCol m i = .ok d ∧ d.run m w = .ok (ys, d') ∧
       d'.leak.1 = (⟨[], 0, 0⟩ : TD α) ∧ d'.leak.1.Inv ∧ (ys ++ d'.leak.2).Perm t.data := by
-  sorry
+  have he := ow_removeCol_eq m t h i hi
+  obtain ⟨d, hd, _, _, _, _, _, hwf, habs⟩ := C07_remove_col m t h i hi
+  rw [he] at hd
+  injection hd with hd
+  subst hd
+  obtain ⟨it', k', _, _, hrun⟩ := dr_col_run m w _ t.numRows hwf
+  have hword0 : (0 : Nat) < WORD := by unfold WORD; omega
+  -- the yielded positions are distinct cells of the column, inside the buffer
+  have hperm := dr_ends_perm w (Col.abs ⟨⟨i, t.data.length - t.numCols + 1⟩, t.numCols - 1⟩ t.numRows)
+  have hdist := C09_col_distinct _ t.numRows _ hwf
+  have hnd : (Seq.ends (Col.abs ⟨⟨i, t.data.length - t.numCols + 1⟩, t.numCols - 1⟩ t.numRows) w).1.Nodup :=
+    (List.nodup_append.1 (hperm.nodup_iff.2 hdist.1)).1
+  have hin : ∀ p ∈ (Seq.ends (Col.abs ⟨⟨i, t.data.length - t.numCols + 1⟩, t.numCols - 1⟩ t.numRows) w).1,
+      p < t.data.length := fun p hp => hdist.2 p (hperm.subset (List.mem_append_left _ hp))
+  refine ⟨_, _, _, he, hrun, ?_, ?_, ?_⟩
+  · rw [ow_leak_col_zero _ rfl rfl rfl]
+  · rw [ow_leak_col_zero _ rfl rfl rfl]
+    exact ⟨rfl, Iff.rfl, hword0⟩
+  · rw [ow_leak_col_zero _ rfl rfl rfl]
+    exact ow_leak_col_run_perm t.data _ hnd hin
 
 /-- consuming a column drain never touches what the borrowed array shows (the three fields `remove_col` zeroed) -/
 theorem C12_drain_col_steps_keep_array (m : Mode) (d : DrainCol α) :
     (∀ x d', d.next = .ok (x, d') → d'.tdLen = d.tdLen ∧ d'.tdCols = d.tdCols ∧ d'.tdRows = d.tdRows ∧ d'.buf = d.buf) ∧
     (∀ x d', d.nextBack m = .ok (x, d') → d'.tdLen = d.tdLen ∧ d'.tdCols = d.tdCols ∧ d'.tdRows = d.tdRows ∧ d'.buf = d.buf) := by
-  sorry
+  constructor
+  · intro x d' hx
+    unfold DrainCol.next at hx
+    cases hn : d.iter.next with
+    | error e => rw [hn] at hx; cases hx
+    | ok r =>
+      obtain ⟨p, it⟩ := r
+      rw [hn, ok_bind] at hx
+      cases p with
+      | none =>
+        injection hx with hx
+        injection hx with _ hx
+        subst hx
+        exact ⟨rfl, rfl, rfl, rfl⟩
+      | some p =>
+        simp only at hx
+        cases hr : readCell d.buf p with
+        | error e => rw [hr] at hx; cases hx
+        | ok y =>
+          rw [hr, ok_bind] at hx
+          injection hx with hx
+          injection hx with _ hx
+          subst hx
+          exact ⟨rfl, rfl, rfl, rfl⟩
+  · intro x d' hx
+    unfold DrainCol.nextBack at hx
+    cases hn : d.iter.nextBack m with
+    | error e => rw [hn] at hx; cases hx
+    | ok r =>
+      obtain ⟨p, it⟩ := r
+      rw [hn, ok_bind] at hx
+      cases p with
+      | none =>
+        injection hx with hx
+        injection hx with _ hx
+        subst hx
+        exact ⟨rfl, rfl, rfl, rfl⟩
+      | some p =>
+        simp only at hx
+        cases hr : readCell d.buf p with
+        | error e => rw [hr] at hx; cases hx
+        | ok y =>
+          rw [hr, ok_bind] at hx
+          injection hx with hx
+          injection hx with _ hx
+          subst hx
+          exact ⟨rfl, rfl, rfl, rfl⟩
 
 /-- non-vacuity: leak a column drain of a 3x2 array after pulling one item from the back -/
 example : (do let d ← TD.removeCol .debug (⟨[1, 2, 3, 4, 5, 6], 2, 3⟩ : TD Nat) 1
               let (ys, d') ← d.run .debug [false]
               pure (ys, d'.leak)) = .ok ([5], (⟨[], 0, 0⟩, [1, 2, 3, 4, 6])) := by
-  sorry
+  rfl
 
 end Toodee
